@@ -51,11 +51,13 @@ def columnJson (c : Column) : Json :=
 
 /-- the import-time `Schema()` of `Table.__init__`'s default argument: built with the configured default that was in
     force when `sqllineage.core.models` was imported (field "import_cfg", default "") -/
-def importDefaultOf (j : Json) : Except String Schema := do
-  let ic := (← optStr j "import_cfg").getD []
-  pure (Schema.mk? none ic)
-
 def cfgOf (j : Json) : Except String N := do pure ((← optStr j "cfg").getD [])
+
+/-- since the repair of D17 (`Table.__init__` resolves `Schema()` at call time) the default is the configured default in
+    force (field "cfg"); a request can still pin the unrepaired behaviour with "import_cfg" -/
+def importDefaultOf (j : Json) : Except String Schema := do
+  let ic := (← optStr j "import_cfg").getD (← cfgOf j)
+  pure (Schema.mk? none ic)
 
 /-- `{"cmd":"ident","s":…}` → `{"escape":…}` -/
 def handleIdent (j : Json) : Except String Json := do
@@ -71,12 +73,16 @@ def handleBatch (j : Json) : Except String Json := do
   let cfg ← cfgOf j
   let imp ← importDefaultOf j
   let sarg ← optStr j "schema_arg"
-  let schemaArg := match sarg with | some a => Schema.mk? (some a) cfg | none => imp
+  -- "import_cfg" given: the unrepaired `Table.__init__` (default argument evaluated at import); otherwise the repaired one
+  let pinned := (← optStr j "import_cfg").isSome
+  let schemaArg : Option Schema := match sarg with
+    | some a => some (Schema.mk? (some a) cfg)
+    | none => if pinned then some imp else none
   pure <| .arr (ss.map fun s =>
     Json.mkObj [
       ("escape", jstr (escape s)),
       ("schema", schemaJson (Schema.mk? (some s) cfg)),
-      ("table", tableJson (Table.mk s schemaArg cfg)),
+      ("table", tableJson (Table.mkOpt s schemaArg cfg)),
       ("column", columnJson (Column.mk s)),
       ("path", jstr (Path.mk s).str)]).toArray
 
